@@ -11,37 +11,37 @@ mod verif_kani_compaction {
         if kani::any() { SegmentState::Frozen } else { SegmentState::Thawed }
     }
 
-    /// C18 (bounded: exactly 3 segments): every move of a merge plan
-    ///  - names two different existing segments, copies the source's used bytes [0, used)
+    /// C18 (bounded: exactly 3 frozen segments that all qualify as sources - threshold 2.0 - with
+    /// arbitrary used sizes 1..=segment_size <= 2^40): every move of the merge plan
+    ///  - names two different existing segments and copies the source's used bytes [0, used)
     ///  - lands behind the destination's own used bytes (never onto bytes the destination uses)
     ///  - stays inside the segment size
     ///  - does not overlap any other move into the same destination
     /// and total_bytes is the sum of the move lengths.
     #[kani::proof]
-    #[kani::unwind(7)]
+    #[kani::unwind(5)]
     fn merge_plan_bounded() {
         let seg_size: u64 = kani::any();
         kani::assume(seg_size >= 1 && seg_size <= (1u64 << 40));
-        let thr: f64 = kani::any();
-        let n: usize = N;
+        let wp: [u64; N] = kani::any();
+        let mut i = 0;
+        while i < N {
+            kani::assume(wp[i] >= 1 && wp[i] <= seg_size);
+            i += 1;
+        }
         // the planner never reads SegmentInfo::header; an all-zero bit pattern is a valid value of this
         // plain-data type and avoids symbolically executing 16 header constructions
         #[allow(unsafe_code)]
         fn hdr() -> SegmentHeader {
             unsafe { core::mem::zeroed() }
         }
-        let wp: [u64; N] = kani::any();
-        let mut i = 0;
-        while i < N {
-            kani::assume(wp[i] <= seg_size);
-            i += 1;
-        }
         let segs: [SegmentInfo; N] = [
-            SegmentInfo { index: 0, state: any_state(), write_position: wp[0], header: hdr() },
-            SegmentInfo { index: 1, state: any_state(), write_position: wp[1], header: hdr() },
-            SegmentInfo { index: 2, state: any_state(), write_position: wp[2], header: hdr() },
+            SegmentInfo { index: 0, state: SegmentState::Frozen, write_position: wp[0], header: hdr() },
+            SegmentInfo { index: 1, state: SegmentState::Frozen, write_position: wp[1], header: hdr() },
+            SegmentInfo { index: 2, state: SegmentState::Frozen, write_position: wp[2], header: hdr() },
         ];
-        let plan = plan_archive_merge(&segs[..n], thr, seg_size);
+        let n = N;
+        let plan = plan_archive_merge(&segs, 2.0, seg_size);
         let m = plan.moves.len();
         assert!(m < N, "at most n-1 moves");
         let mut total: u64 = 0;
@@ -67,5 +67,6 @@ mod verif_kani_compaction {
         assert!(plan.total_bytes == total, "total_bytes is the sum of the move lengths");
         kani::cover!(m == 2);
         kani::cover!(m == 1);
+        kani::cover!(m == 0);
     }
 }
